@@ -37,6 +37,7 @@ class Ctx:
         self.events = []
         self.inconclusive = None
         self.model = None
+        self.byte_sets = {}
 
     # ---- statistics
     def _stat(self, k, d=1):
@@ -78,6 +79,57 @@ class Ctx:
         self.pc.append(cond)
         if self.model is not None and not z3.is_true(self.model.eval(cond, model_completion=True)):
             self.model = None
+        # assumptions over a single 8-bit symbol (alphabets of symbolic bytes): remember the admitted values, so that later
+        # decisions about that byte alone can be taken by evaluation instead of by a solver call (see _byte_shortcut)
+        v = self._single_byte_var(cond)
+        if v is not None:
+            old = self.byte_sets.get(v.get_id())
+            cand = old[1] if old else range(256)
+            allowed = frozenset(k for k in cand if z3.is_true(z3.simplify(z3.substitute(cond, (v, z3.BitVecVal(k, 8))))))
+            self.byte_sets[v.get_id()] = (v, allowed)
+
+    @staticmethod
+    def _single_byte_var(t, limit=200):
+        """The only uninterpreted constant of term t if it is an 8-bit bit-vector (and t is small), else None."""
+        found = None
+        stack = [t]
+        seen = 0
+        while stack:
+            x = stack.pop()
+            seen += 1
+            if seen > limit:
+                return None
+            if z3.is_const(x) and x.decl().kind() == z3.Z3_OP_UNINTERPRETED:
+                if not z3.is_bv(x) or x.size() != 8:
+                    return None
+                if found is None:
+                    found = x
+                elif not found.eq(x):
+                    return None
+            else:
+                stack.extend(x.children())
+        return found
+
+    def _byte_shortcut(self, cond):
+        """True / False if `cond` speaks about one symbolic byte whose admitted values (a superset of the feasible ones) all agree
+        on it; None otherwise.  Sound: agreement over a superset is agreement over the feasible values."""
+        if not self.byte_sets:
+            return None
+        v = self._single_byte_var(cond)
+        if v is None:
+            return None
+        ent = self.byte_sets.get(v.get_id())
+        if ent is None or not ent[0].eq(v) or not ent[1] or len(ent[1]) > 128:
+            return None
+        res = None
+        for k in ent[1]:
+            r = z3.simplify(z3.substitute(cond, (v, z3.BitVecVal(k, 8))))
+            b = True if z3.is_true(r) else False if z3.is_false(r) else None
+            if b is None or (res is not None and b != res):
+                return None
+            res = b
+        self._stat('byte_shortcuts')
+        return res
 
     # ---- branching
     def branch(self, cond):
@@ -103,7 +155,11 @@ class Ctx:
         ncond = z3.Not(cond)
         mt = mf = None
         can_t = can_f = None
-        if self.model is not None:
+        sb = self._byte_shortcut(cond)
+        if sb is not None:
+            can_t, can_f = sb, (not sb)
+            mt = mf = self.model if (self.model is not None and z3.is_true(self.model.eval(cond if sb else ncond, model_completion=True))) else None
+        elif self.model is not None:
             mv = self.model.eval(cond, model_completion=True)
             if z3.is_true(mv):
                 can_t, mt = True, self.model
